@@ -9,6 +9,7 @@
 mod ops_feel;
 mod ops_model;
 mod ops_num;
+mod ops_recog;
 mod ops_serve;
 mod ops_temporal;
 mod ops_threads;
@@ -73,7 +74,8 @@ fn dispatch(case: &J) -> J {
     "numtext" => ops_num::op_numtext(case),
     "numsweep" => ops_num::op_numsweep(case),
     "model" => ops_model::op_model(case),
-    "dtext" => ops_model::op_dtext(case),
+    "dtext" => ops_recog::op_dtext(case),
+    "recog" => ops_recog::op_recog(case),
     "modelhist" => ops_model::op_modelhist(case),
     "types" => ops_types::op_types(case),
     "coerce" => ops_types::op_coerce(case),
